@@ -40,9 +40,12 @@ TEMPLATES = {
     # a namespace seeded from a dict that lives in a cached imported module (must be a private copy per render)
     "nslib": "{% set cfg = {'k': 'v'} %}{% macro show() %}{{ cfg|dictsort }}{% endmacro %}",
     "nsimp": "{% import 'nslib' as l %}{% set ns = namespace(l.cfg) %}{% set ns.k = x %}{% set ns.extra = x %}{{ f('n') }}{{ ns.k }}{{ l.cfg|dictsort }}{{ l.show() }}",
+    # `|list` of a list that lives in a cached imported module is a private copy per render
+    "lstlib": "{% set base = [0] %}{% macro show() %}{{ base }}{% endmacro %}",
+    "lstimp": "{% import 'lstlib' as l %}{% set mine = l.base|list %}{% set _ = mine.append(x) %}{{ f('n') }}{{ mine }}{{ l.base }}{{ l.show() }}",
     "impae": "{% import 'libae' as l %}{{ l.am('<' ~ x, x == 1) }}{{ '<' }}",
 }
-POOL = ["imp", "fromctx", "loopns", "macro", "child", "volatile", "incl", "impae", "pg.html", "ml.txt", "nsimp"]
+POOL = ["imp", "fromctx", "loopns", "macro", "child", "volatile", "incl", "impae", "pg.html", "ml.txt", "nsimp", "lstimp"]
 # small templates (<= 2 gates) for the 3-task harnesses: the interleaving tree of three 5-step tasks has 756756 leaves
 TEMPLATES.update({
     "slib": "{% set v = f('L') %}{% macro sm() %}{{ v }}{{ x }}{% endmacro %}",
